@@ -56,7 +56,9 @@ Proof.
   unfold tok_shape. destruct (snd t); [discriminate|].
   destruct (fst t =? tkIdent) eqn:E1; [apply N.eqb_eq in E1; rewrite E1; reflexivity|].
   destruct (fst t =? tkNumber) eqn:E2; [apply N.eqb_eq in E2; rewrite E2; reflexivity|].
-  destruct (fst t =? tkPunct) eqn:E3; [apply N.eqb_eq in E3; rewrite E3; reflexivity|discriminate].
+  destruct (fst t =? tkPunct) eqn:E3; [apply N.eqb_eq in E3; rewrite E3; reflexivity|].
+  destruct (fst t =? tkString) eqn:E4; [apply N.eqb_eq in E4; rewrite E4; reflexivity|].
+  destruct (fst t =? tkTemplate) eqn:E5; [apply N.eqb_eq in E5; rewrite E5; reflexivity|discriminate].
 Qed.
 
 Lemma emit_head lastv lastk (u : tok) (r : list tok) : (fst u =? tkWS) = false -> snd u <> [] ->
